@@ -99,6 +99,7 @@ func (h *vrfC05) instruction(allowWorkers bool) {
 		vrf_assert(err == nil || err == ErrFullQueue, "C05.untrack.only-queue-error")
 	case 4:
 		h.spt.Recover(ctx, c)
+		h.refused[i] = false // a recover round retries what was refused
 	}
 	if h.refused[i] {
 		// an instruction that cannot be queued is reported, and visible as an error status
